@@ -425,4 +425,45 @@ structure WF {T V : Type} (fields : List String) (tc : TC (TDm T V) V) : Prop wh
   disj : ∀ k ∈ tc.td.keys, k ∉ tc.nt.keys
   nt_nodup : tc.nt.keys.Nodup
 
+/-! ## Part E — writes that reach `_tensordict` without going through `_set` -/
+
+/-- mirrors tensorclass.py:_drop_stale_placeholders: the `None` placeholders of the fields that (now) have an
+entry in `_tensordict` are removed from `_non_tensordict` -/
+def dropStale {T V : Type} (tc : TC (TDm T V) V) : TC (TDm T V) V :=
+  { tc with nt := tc.nt.filter (fun kv => !(kv.2.isNone && tc.td.keys.contains kv.1)) }
+
+/-- mirrors tensorclass.py:_wrap_td_method.wrapped_func for a delegated method that writes IN PLACE: the method
+turns `_tensordict` into `td'` (whatever it does: `setdefault`, `rename_key_`, `create_nested`, `cat_tensors`, …),
+then the wrapper drops the stale placeholders -/
+def delegatedWrite {T V : Type} (tc : TC (TDm T V) V) (td' : TDm T V) : TC (TDm T V) V :=
+  dropStale { tc with td := td' }
+
+/-- the PINNED wrapper (before the repair): the placeholders are left as they are -/
+def delegatedWritePinned {T V : Type} (tc : TC (TDm T V) V) (td' : TDm T V) : TC (TDm T V) V :=
+  { tc with td := td' }
+
+/-- base.py:TensorDictBase.update on string keys: every entry of the source is written over / appended to the
+destination (`_set_str` per key) -/
+def tdUpdate {T V : Type} (td src : TDm T V) : TDm T V :=
+  ⟨src.entries.foldl (fun es kv => assocSet kv.1 kv.2 es) td.entries, td.locked⟩
+
+/-- mirrors tensorclass.py:_update for a tensorclass source on an unlocked destination (a dict source is first turned
+into a tensorclass by `from_dict`): the non-`None` values of the source's `_non_tensordict` are merged, the underlying
+tensordicts are updated, the stale placeholders dropped.  `filterNone = false` is the seeded mutant C15-2 (the source's
+placeholders are merged too). -/
+def updateTc {T V : Type} (filterNone : Bool) (dst src : TC (TDm T V) V) : TC (TDm T V) V :=
+  let merged := (if filterNone then src.nt.filter (fun kv => kv.2.isSome) else src.nt).foldl
+    (fun acc kv => assocSet kv.1 kv.2 acc) dst.nt
+  dropStale { dst with td := tdUpdate dst.td src.td, nt := merged }
+
+/-- the PINNED `_update` (before the repair): no pruning after the merge -/
+def updateTcPinned {T V : Type} (filterNone : Bool) (dst src : TC (TDm T V) V) : TC (TDm T V) V :=
+  let merged := (if filterNone then src.nt.filter (fun kv => kv.2.isSome) else src.nt).foldl
+    (fun acc kv => assocSet kv.1 kv.2 acc) dst.nt
+  { dst with td := tdUpdate dst.td src.td, nt := merged }
+
+/-- `_non_tensordict` of a regular tensorclass only holds `None` placeholders (values live in `_tensordict` as
+`NonTensorData`); every writer of the model keeps this -/
+def PlaceholdersOnly {T V : Type} (tc : TC (TDm T V) V) : Prop := ∀ kv ∈ tc.nt, kv.2 = none
+
 end TdVerif.C15
